@@ -454,55 +454,102 @@ func checkC18(p *Prog, r *Report) {
 	}
 
 	// ---- R18.6 candidate type dispatch ----------------------------------------------------------------------------------------
-	r.Rule("R18.6", "gatherCandidatesInternal ranges over the configured candidate types and has a case for every CandidateType constant; host, server-reflexive and relay dispatch to their gatherers.", 4)
+	r.Rule("R18.6", "gatherCandidatesInternal ranges over the configured candidate types and decides on each (switch or if chain); host, server-reflexive and relay dispatch to their own gatherers and to no other type's.", 4)
 	if f := p.Fn("Agent.gatherCandidatesInternal"); f != nil {
-		var sw *ast.SwitchStmt
 		var rng *ast.RangeStmt
 		walkBody(f, func(n ast.Node) bool {
-			switch x := n.(type) {
-			case *ast.SwitchStmt:
-				if sw == nil {
-					sw = x
-				}
-			case *ast.RangeStmt:
-				if rng == nil {
-					rng = x
-				}
+			if x, ok := n.(*ast.RangeStmt); ok && rng == nil {
+				rng = x
 			}
 			return true
 		})
-		r.Check(rng != nil && p.IsField(rng.X, "Agent.candidateTypes"), "gathers the configured candidate types", p.Pos(f.Body.Pos()), "range a.candidateTypes", "the pass does not iterate the configured candidate types")
-		if r.Check(sw != nil, "candidate type switch", p.Pos(f.Body.Pos()), "switch t", "no switch over the candidate type") {
-			cases := map[string]*ast.CaseClause{}
-			for _, cl := range sw.Body.List {
-				cc := cl.(*ast.CaseClause)
-				for _, e := range cc.List {
-					cases[p.constName(e)] = cc
+		if r.Check(rng != nil && p.IsField(rng.X, "Agent.candidateTypes"), "gathers the configured candidate types", p.Pos(f.Body.Pos()), "range a.candidateTypes", "the pass does not iterate the configured candidate types") {
+			// the element of the iteration, however it is named and whether it is the range value or a[i]
+			isElem := func(e ast.Expr) bool {
+				e = unparen(e)
+				if rng.Value != nil {
+					if v, ok := rng.Value.(*ast.Ident); ok && p.isObj(e, p.ObjOf(v)) {
+						return true
+					}
 				}
-			}
-			var missing []string
-			if tn, ok := p.Ice.Types.Scope().Lookup("CandidateType").(*types.TypeName); ok {
-				for _, n := range p.Ice.Types.Scope().Names() {
-					if c, ok := p.Ice.Types.Scope().Lookup(n).(*types.Const); ok && types.Identical(c.Type(), tn.Type()) {
-						if _, ok := cases[n]; !ok {
-							missing = append(missing, n)
+				if ix, ok := e.(*ast.IndexExpr); ok && p.IsField(ix.X, "Agent.candidateTypes") {
+					return true
+				}
+				if id, ok := e.(*ast.Ident); ok {
+					if o := p.ObjOf(id); o != nil {
+						if d, okD := p.SingleDef(f, o); okD && d.Rhs != nil {
+							if ix, ok := unparen(d.Rhs).(*ast.IndexExpr); ok && p.IsField(ix.X, "Agent.candidateTypes") {
+								return true
+							}
 						}
 					}
 				}
+				return false
 			}
-			sort.Strings(missing)
-			r.Check(len(missing) == 0, "candidate type switch is exhaustive", p.Pos(sw.Pos()), "a case for every CandidateType", "no case for "+strings.Join(missing, ", "))
+			// the arms: switch clauses over the element, or if / else-if conditions "elem == Const [|| ...]"
+			cases := map[string][]ast.Stmt{}
+			var constsOf func(e ast.Expr) []string
+			constsOf = func(e ast.Expr) []string {
+				e = unparen(e)
+				if be, ok := e.(*ast.BinaryExpr); ok {
+					switch be.Op {
+					case token.LOR:
+						l, rr := constsOf(be.X), constsOf(be.Y)
+						if l == nil || rr == nil {
+							return nil
+						}
+						return append(l, rr...)
+					case token.EQL:
+						if isElem(be.X) && p.constName(unparen(be.Y)) != "" {
+							return []string{p.constName(unparen(be.Y))}
+						}
+						if isElem(be.Y) && p.constName(unparen(be.X)) != "" {
+							return []string{p.constName(unparen(be.X))}
+						}
+					}
+				}
+				return nil
+			}
+			ast.Inspect(rng.Body, func(n ast.Node) bool {
+				switch x := n.(type) {
+				case *ast.FuncLit:
+					return false
+				case *ast.SwitchStmt:
+					if x.Tag != nil && isElem(x.Tag) {
+						for _, cl := range x.Body.List {
+							cc := cl.(*ast.CaseClause)
+							for _, e := range cc.List {
+								if c := p.constName(unparen(e)); c != "" {
+									cases[c] = cc.Body
+								}
+							}
+						}
+					} else if x.Tag == nil {
+						for _, cl := range x.Body.List {
+							cc := cl.(*ast.CaseClause)
+							for _, e := range cc.List {
+								for _, c := range constsOf(e) {
+									cases[c] = cc.Body
+								}
+							}
+						}
+					}
+				case *ast.IfStmt:
+					for _, c := range constsOf(x.Cond) {
+						cases[c] = x.Body.List
+					}
+				}
+				return true
+			})
+			r.Check(len(cases) >= 3, "candidate type dispatch", p.Pos(rng.Pos()), fmt.Sprintf("%d candidate types decided on", len(cases)), "no decision on the candidate type found in the pass (switch or if chain over the iterated type)")
 			want := map[string]string{"CandidateTypeHost": "ice.Agent.gatherCandidatesLocal", "CandidateTypeServerReflexive": "ice.Agent.gatherServerReflexiveCandidates", "CandidateTypeRelay": "ice.Agent.gatherCandidatesRelay"}
 			var bad []string
 			for k, callee := range want {
-				cc := cases[k]
 				found := false
-				if cc != nil {
-					for _, st := range cc.Body {
-						for _, c := range p.NodeCallsDeep(st) {
-							if p.CalleeName(c) == callee {
-								found = true
-							}
+				for _, st := range cases[k] {
+					for _, c := range p.NodeCallsDeep(st) {
+						if p.CalleeName(c) == callee {
+							found = true
 						}
 					}
 				}
@@ -511,7 +558,22 @@ func checkC18(p *Prog, r *Report) {
 				}
 			}
 			sort.Strings(bad)
-			r.Check(len(bad) == 0, "candidate types dispatch to their gatherers", p.Pos(sw.Pos()), "host/srflx/relay", strings.Join(bad, "; "))
+			r.Check(len(bad) == 0, "candidate types dispatch to their gatherers", p.Pos(rng.Pos()), "host/srflx/relay", strings.Join(bad, "; "))
+			// and only their own: an arm for one type does not start another type's gatherer
+			var cross []string
+			for k, body := range cases {
+				for _, st := range body {
+					for _, c := range p.NodeCallsDeep(st) {
+						for k2, callee := range want {
+							if k2 != k && p.CalleeName(c) == callee {
+								cross = append(cross, k+" starts "+callee)
+							}
+						}
+					}
+				}
+			}
+			sort.Strings(cross)
+			r.Check(len(cross) == 0, "each candidate type starts only its own gatherer", p.Pos(rng.Pos()), "no cross dispatch", strings.Join(cross, "; ")+": a candidate type that is not enabled is gathered")
 		}
 	}
 
